@@ -1530,6 +1530,9 @@ def cells(tier, seed):
     # two constraints of the same kind on one parameter (register_constraint(..., replace=False)) intersect to the common interval
     for a, b in itertools.product([(0.1, 2.0), (0.5, 5.0), (1.0, 1.5)], repeat=2):
         out.append({"what": "intersect", "a": list(a), "b": list(b)})
+    # initialize() documents "a tensor, a float, or an int" as values - also for the raw parameters
+    for target, val in itertools.product(["rbf.raw_lengthscale", "scale.raw_outputscale", "lik.noise_covar.raw_noise", "periodic.raw_period_length"], [0.5, 1, -0.25]):
+        out.append({"what": "raw-float", "target": target, "val": val})
     # an assignment outside the SUPPORT of a registered prior: accepted or rejected, but a rejected assignment is not stored
     for target, route, first in itertools.product(["rbf.lengthscale", "scale.outputscale", "mtlik.noise", "lik.noise"], ["initialize", "setter"], [1.0, 1.5]):
         out.append({"what": "prior-support", "target": target, "route": route, "first": first})
@@ -1548,7 +1551,25 @@ def run_cell(cell, seed):
         return run_intersect(cell, seed)
     if what == "prior-support":
         return run_prior_support(cell, seed)
+    if what == "raw-float":
+        return run_raw_float(cell, seed)
     return run_module_prior(cell, seed)
+
+
+def run_raw_float(cell, seed):
+    fails = []
+    feats = {"what": "raw-float", "target": cell["target"]}
+    kind, _, name = cell["target"].partition(".")
+    m = {"rbf": lambda: GK.RBFKernel(), "scale": lambda: GK.ScaleKernel(GK.RBFKernel()), "lik": lambda: GL.GaussianLikelihood(),
+         "periodic": lambda: GK.PeriodicKernel()}[kind]()
+    try:
+        m.initialize(**{name: cell["val"]})
+        got = resolve(m, name.split("."))
+        if float((got.detach() - float(cell["val"])).abs().max()) > 0:
+            fails.append({"sub": "raw-float", "symptom": f"initialize({name}={cell['val']!r}) reads back {got.detach().reshape(-1).tolist()}", "detail": "", "features": feats})
+    except Exception as e:
+        fails.append({"sub": "raw-float", "symptom": util.exc_str(e), "detail": f"initialize({name}={cell['val']!r})", "features": feats})
+    return {"fails": fails, "sig": "raw-float", "features": feats, "ops": 1}
 
 
 def run_prior_support(cell, seed):
